@@ -2,7 +2,7 @@
 Same model, harness binary and correspondence as C03 (coq/C03/Model.v, harness/src/bin/c03.rs --mode c04)."""
 import vlib
 
-KNOWN = {"variable-at-position-with-default-rejected", "subscription-same-root-field-twice-rejected"}
+KNOWN = set()   # both former false alarms are repaired in /repo (aff743c, a3d3d08)
 
 
 def classify(case, kind):
